@@ -25,6 +25,7 @@ RULE = (
     "bit-wise.  Non-trivial: vorticity and velocity both non-zero and at least one of {non-cubic grid, "
     "forcing on, filter on, width != 2, fast-diag, rho != 1}; passive: field and velocity non-zero with both "
     "upwind directions present.  Distinct = digest of the case."
+    " Since session 3 the domain also holds: nu = 0, axis-aligned free streams, one-signed velocity components, amplitudes 2^-24..2^16, domain sizes 1e-9..1e3, one long axis, dt from the simulator's own query, default constructor arguments omitted, and part two_simulator_histories (two live simulators, interleaved steps / re-stated fields / queries / parameters changed on the live object)."
 )
 ASSUMPTIONS = [
     "state magnitudes in [2^-6, 2^6], dt within [0.05, 2] x the stable step, finite inputs (the JIT uses -Ofast)",
